@@ -5,7 +5,9 @@
     std.Atoi10, std.Atoi base 16).  Grammar: Spec/Grammar.v, written from the
     property text and RFC 1035 / RFC 4291, independently of the scanners.
     Every statement quantifies over ALL byte strings; the only bounds are the
-    ones the functions impose themselves.
+    ones the functions impose themselves.  All statements are equivalences for
+    the code of the working tree (0620db8, 131c44b and 7bd3a2c included); the
+    last section records what held before 7bd3a2c.
 
     A scanner has three outcomes: [Halt true] (the data is accepted),
     [Halt false] (the contract panics "invalid record data" / "invalid domain
@@ -13,7 +15,10 @@
     "not a byte"); the last two both reject the invocation. *)
 From Verif Require Import Base.Prelude Model.NNSSyntax Spec.Grammar Proofs.NNSSyntaxLib
   Proofs.NNSSyntax Proofs.NNSSyntaxIP4 Proofs.NNSSyntaxIP6 Proofs.NNSSyntaxBool
-  Proofs.NNSSyntaxRecord.
+  Proofs.NNSSyntaxF12 Proofs.NNSSyntaxRecord.
+From Verif Require Import Model.NNSSyntaxF12.
+(* The evaluation support of cases_C18*.v, so that building this file builds it too. *)
+From Verif Require Model.NNSSyntaxRun.
 Local Open Scope Z_scope.
 
 (* ------------------------------------------------------------------ *)
@@ -53,41 +58,18 @@ Print Assumptions C18_ipv4_rejection.
 (* ------------------------------------------------------------------ *)
 (** * AAAA records *)
 
-(** The equivalence with RFC 4291 text fails: "::" may stand for a single
-    zero group, but seven groups followed by "::" split into nine fragments
-    and checkIPv6 refuses more than eight (finding F12). *)
-Definition f12_witness : bytes :=   (* "2003:1:2:3:4:5:6::" *)
-  [50; 48; 48; 51; 58; 49; 58; 50; 58; 51; 58; 52; 58; 53; 58; 54; 58; 58]%N.
-
-Theorem C18_ipv6_refuted : exists s : bytes, valid_AAAA s /\ checkIPv6 s = Halt false.
-Proof.
-  exists f12_witness. split; [apply valid_AAAAb_spec|]; vm_compute; reflexivity.
-Qed.
-Print Assumptions C18_ipv6_refuted.
-
-(** Exactly that shape is lost: every string of it is rejected ... *)
-Theorem C18_ipv6_f12 : forall s : bytes, f12_shape s -> checkIPv6 s = Halt false.
-Proof. exact ipv6_f12_rejected. Qed.
-Print Assumptions C18_ipv6_f12.
-
-(** ... and on all other strings checkIPv6 accepts exactly the RFC 4291
-    text (forms 1 and 2) of global unicast addresses. *)
-Theorem C18_ipv6_partial : forall s : bytes,
-  ~ f12_shape s -> (checkIPv6 s = Halt true <-> valid_AAAA s).
-Proof.
-  intros s Hn. rewrite ipv6_equiv. tauto.
-Qed.
-Print Assumptions C18_ipv6_partial.
-
-(** The same as one equivalence over all strings. *)
-Theorem C18_ipv6_exact : forall s : bytes,
-  checkIPv6 s = Halt true <->
-  (exists g, textual_ipv6 s g /\ global_unicast6 g) /\ ~ f12_shape s.
+(** checkIPv6 accepts exactly the RFC 4291 text (forms 1 and 2: eight groups,
+    or one "::" standing for one or more zero groups) of global unicast
+    addresses. *)
+Theorem C18_ipv6 : forall s : bytes,
+  checkIPv6 s = Halt true <-> exists g, textual_ipv6 s g /\ global_unicast6 g.
 Proof. exact ipv6_equiv. Qed.
-Print Assumptions C18_ipv6_exact.
+Print Assumptions C18_ipv6.
 
+(** Rejection is [Halt false] or a fault (std.Atoi on a group that is not
+    hexadecimal, std.StringSplit on a string that is not UTF-8). *)
 Theorem C18_ipv6_rejection : forall s : bytes,
-  ~ (valid_AAAA s /\ ~ f12_shape s) <-> checkIPv6 s = Halt false \/ checkIPv6 s = Fault.
+  ~ valid_AAAA s <-> checkIPv6 s = Halt false \/ checkIPv6 s = Fault.
 Proof. exact ipv6_rejection. Qed.
 Print Assumptions C18_ipv6_rejection.
 
@@ -124,11 +106,9 @@ Proof.
 Qed.
 Print Assumptions C18_cname.
 
-(** All types at once: accepted data is well-formed data, and the converse
-    holds except for AAAA strings of the F12 shape. *)
+(** All types at once: the accepted data is exactly the well-formed data. *)
 Theorem C18_record_data : forall (typ : Z) (data : bytes),
-  record_data_accepted typ data = true <->
-  valid_record_data typ data /\ ~ (typ = 28 /\ f12_shape data).
+  record_data_accepted typ data = true <-> valid_record_data typ data.
 Proof. exact record_data_equiv. Qed.
 Print Assumptions C18_record_data.
 
@@ -138,10 +118,9 @@ Print Assumptions C18_record_data.
 
 Theorem C18_grammar_decided : forall (typ : Z) (s : bytes),
   (valid_nameb s = true <-> valid_name s) /\
-  (valid_record_datab typ s = true <-> valid_record_data typ s) /\
-  (f12_shapeb s = true <-> f12_shape s).
+  (valid_record_datab typ s = true <-> valid_record_data typ s).
 Proof.
-  intros typ s. split; [apply valid_nameb_spec|split; [apply valid_record_datab_spec|apply f12_shapeb_spec]].
+  intros typ s. split; [apply valid_nameb_spec|apply valid_record_datab_spec].
 Qed.
 Print Assumptions C18_grammar_decided.
 
@@ -159,13 +138,50 @@ Example C18_ex_name : valid_name str_test_com /\ name_accepted str_test_com = tr
 Proof. split; [apply C18_names|]; vm_compute; reflexivity. Qed.
 Example C18_ex_A : valid_A str_8888 /\ checkIPv4 str_8888 = Halt true /\ checkIPv4 str_plus = Halt false.
 Proof. split; [apply C18_ipv4|split]; vm_compute; reflexivity. Qed.
+Definition str_seven : bytes :=   (* "2003:1:2:3:4:5:6::" *)
+  [50; 48; 48; 51; 58; 49; 58; 50; 58; 51; 58; 52; 58; 53; 58; 54; 58; 58]%N.
+Definition str_seven_left : bytes :=   (* "::1:2:3:4:5:6:7", nine fragments, not global unicast *)
+  [58; 58; 49; 58; 50; 58; 51; 58; 52; 58; 53; 58; 54; 58; 55]%N.
 Example C18_ex_AAAA :
-  valid_AAAA str_google6 /\ ~ f12_shape str_google6 /\ checkIPv6 str_8000 = Halt true /\
-  f12_shape f12_witness.
+  valid_AAAA str_google6 /\ checkIPv6 str_8000 = Halt true /\
+  valid_AAAA str_seven /\ checkIPv6 str_seven = Halt true /\
+  ~ valid_AAAA str_seven_left /\ checkIPv6 str_seven_left = Halt false.
 Proof.
   assert (H : checkIPv6 str_google6 = Halt true) by (vm_compute; reflexivity).
-  apply C18_ipv6_exact in H as [H1 H2].
-  split; [exact H1|split; [exact H2|split; [vm_compute; reflexivity|apply f12_shapeb_spec; vm_compute; reflexivity]]].
+  assert (H7 : checkIPv6 str_seven = Halt true) by (vm_compute; reflexivity).
+  assert (H7l : checkIPv6 str_seven_left = Halt false) by (vm_compute; reflexivity).
+  split; [apply C18_ipv6, H|]. split; [vm_compute; reflexivity|].
+  split; [apply C18_ipv6, H7|]. split; [exact H7|]. split; [|exact H7l].
+  apply C18_ipv6_rejection. left. exact H7l.
 Qed.
 Example C18_ex_soa : check_record_data 6 [] = Fault.
 Proof. reflexivity. Qed.
+(** The packed form in which the harness ships strings: "a.b" = 0x1622e61. *)
+Example C18_ex_unpack :
+  NNSSyntaxRun.unpack [Uint63.of_Z 23211617] = [97; 46; 98]%N /\
+  NNSSyntaxRun.all_joined (Some 46%N) [[]; [97%N]] 2 =
+    [[]; [97]; [46]; [46; 97]; [97; 46]; [97; 46; 97]]%N.
+Proof. split; vm_compute; reflexivity. Qed.
+
+(* ------------------------------------------------------------------ *)
+(** * HISTORICAL (not claims about the working tree): checkIPv6 before commit
+    7bd3a2c, [checkIPv6_old] of Model/NNSSyntaxF12.v — finding F12.  The
+    equivalence with the grammar was refuted: seven groups followed by "::"
+    split into nine fragments and more than eight were refused; the repair
+    added back exactly these strings and changed nothing else. *)
+
+Lemma C18_before_7bd3a2c_refuted : exists s : bytes, valid_AAAA s /\ checkIPv6_old s = Halt false.
+Proof.
+  exists str_seven. split; [apply valid_AAAAb_spec|]; vm_compute; reflexivity.
+Qed.
+Print Assumptions C18_before_7bd3a2c_refuted.
+
+Lemma C18_before_7bd3a2c_exact : forall s : bytes,
+  checkIPv6_old s = Halt true <-> valid_AAAA s /\ ~ f12_shape s.
+Proof. exact ipv6_old_equiv. Qed.
+Print Assumptions C18_before_7bd3a2c_exact.
+
+Lemma C18_repair_7bd3a2c : forall s : bytes,
+  checkIPv6 s = Halt true <-> checkIPv6_old s = Halt true \/ (f12_shape s /\ valid_AAAA s).
+Proof. exact ipv6_now_vs_old. Qed.
+Print Assumptions C18_repair_7bd3a2c.
